@@ -62,7 +62,7 @@ SPEC = {
                    "PdModel/Props/C12.lean", "PdModel/Driver/Fit.lean"],
     "gen": {
         # random worlds (every fifth sequence from the malformed stream) + a sampled slice of the exhaustive
-        # small domain (3 stores x <=3 peers x 120 single rules + 400 rule pairs per world)
+        # small domain (3 stores x <=3 peers x 168 single rules + 400 rule pairs per world)
         "quick": {"args": ["-n", "1500", "-fits", "8", "-exh", "8", "-sample", "60"], "streams": 8},
         "thorough": {"args": ["-n", "6000", "-fits", "10", "-exh", "16", "-sample", "1"], "streams": 16},
     },
@@ -72,11 +72,11 @@ SPEC = {
     "rule": "sequence = reset + 3-10 stores (location labels zone/rack/host with 2-4 values, extra labels, exclusive "
             "labels $x/$y/engine/exclusive, mixed case, empty and duplicate labels) + regions of 0-6 peers (learners, "
             "leader, sometimes none) + rule lists of 0-4 rules (roles, counts 0-5, 0-2 constraints "
-            "in/notIn/exists/notExists, 0-3 location labels in any order) + 2-8 FitRegion calls with changing "
+            "in/notIn/exists/notExists, one value list in five containing the empty string, 0-3 location labels in any order) + 2-8 FitRegion calls with changing "
             "regions/rules + CompareRegionFit on pairs of the remembered fits; every fifth sequence is from the "
             "malformed stream (invalid role/op strings, count 0, peers on unknown stores, leader that is a learner or "
             "nobody); plus the exhaustive small domain (3 stores x 4 label layouts each, every placement of <= 3 "
-            "voter/learner peers and leader choice, 120 single rules and 400 rule pairs), sampled in the quick tier and "
+            "voter/learner peers and leader choice, 168 single rules and 400 rule pairs), sampled in the quick tier and "
             "complete in the thorough tier; non-trivial = a fit of >= 2 rules with a mismatch, score or orphan to "
             "decide and a fit with a partly empty rule; distinct = distinct op sequence",
     "model_text": "PdModel/Model/Fit.lean: FitRegion translated function by function (label matching with exclusive "
